@@ -128,9 +128,18 @@ extern "C" void harness() {
 // H16S: spreadCoordX keeps every cell inside its bin (float kernel; linear error model, tolerance 2^-18 of the magnitude)
 extern "C" void harness() {
   DensityGrid g(8, Rectangle(0, 16, 0, 8));
-  const int NCELL = 3;
+  enum { NCELL = 3 };
   std::vector<int> dem; std::vector<float> tgt;
+#ifdef CONCDEM
+  // concrete demand vectors (float arithmetic of the kernel then runs on concrete values), symbolic targets: the order of the
+  // cells inside the bin, which is all the targets decide, is explored by the solver.  Includes macro-sized demands whose sum
+  // passes 2^31 (each demand fits an int) and a zero-area cell.
+  static const int DEMS[4][NCELL] = {{1500000000, 1500000000, 5}, {1, 2, 3}, {0, 7, 1 << 30}, {2000000000, 0, 2000000000}};
+  int shape = __verif_choice(4);
+  for (int c = 0; c < NCELL; ++c) dem.push_back(DEMS[shape][c]);
+#else
   for (int c = 0; c < NCELL; ++c) { int d = __verif_nondet_int(0, 1 << 20); dem.push_back(d); }
+#endif
   for (int c = 0; c < NCELL; ++c) { float t = __verif_nondet_float(-1.0e6f, 1.0e6f); tgt.push_back(t); }
   HierarchicalDensityPlacement h(g, dem);
   int lvl = __verif_choice(2);
